@@ -92,7 +92,8 @@ def step (st : St) (tok : List String) (_line : String) (impl : Option String) :
           let it := il.splitOn " "
           let after : C20Spec.Seen := { key := kvStr it "sk" "-", sessionKey := kvStr it "sm" "-", rep := kvInt it "rep" 0 }
           let acc := kvStr it "r" "0" == "1" || kvStr it "ack" "0" == "1" || kvStr it "conn" "0" == "1"
-          let v := C20Spec.judge (st.seen p) after acc (kvStr it "kv" "0" == "1") (kvStr it "pv" "0" == "1")
+          -- key validity by the specification's own definition; nonce validity as measured by the real validator
+          let v := C20Spec.judge (st.seen p) after acc (C20Spec.keyValid pub) (kvStr it "pv" "0" == "1")
           ((fun q => if q = p then after else st.seen q),
            match v with | some cl => s!"viol:{cl}:peer {p} key {pub} nonce {ntok}" | none => "ok")
       ({ st with m := m2, seen := seen' }, line, verdict)
